@@ -4,7 +4,7 @@ NOT_BUILT = "check not built yet in this round (design in DESIGN.md section 3); 
 
 
 def fill(claim, na):
-    for p in ["C01", "C02", "C03", "C04", "C06", "C09", "C10", "C11", "C12", "C13",
+    for p in ["C01", "C02", "C03", "C04", "C06", "C09", "C10", "C12", "C13",
               "C15", "C16", "C18"]:
         na(p, NOT_BUILT)
     na("C05", "equality of decoded flux with the sector dump is a statement about decoding arbitrary bit-streams "
@@ -45,3 +45,12 @@ def fill(claim, na):
           "assertion-enabled programs are otherwise identical, so the builds can differ only where an assertion fails.",
           "Trusts glibc's assert expansion shapes and the const-contract of the standard library.",
           "DESIGN.md 3/C19")
+    claim("C11",
+          "path-sensitive typestate over the CFG (flush -> good-state test -> return 0) through main and its status "
+          "helper; census of stream-state resets and direct stream-buffer use; typestate of every local ofstream "
+          "(close, then tested good, on every non-failure scope exit); flush+ferror typestate in bbcbasic_to_text main",
+          "Decides the structural part for every output length and failure offset: exit status 0 is only reachable on "
+          "paths where the output streams were flushed/closed and afterwards found good. Behaviour of the C++/C "
+          "libraries under write failure is trusted, not analysed.",
+          "Trusts: cout synchronised with stdio and sticky badbit/ferror; the stdout-writer call-graph closure.",
+          "DESIGN.md 3/C11")
